@@ -180,6 +180,16 @@ fn main() {
             drop(filler);
             0
         }
+        Some("fuzz-corpus") => match xtv::fuzzglue::write_corpus(args.get(2).map(String::as_str).unwrap_or(""), std::path::Path::new(args.get(3).map(String::as_str).unwrap_or("."))) {
+            Ok(n) => {
+                println!("wrote {} seed inputs", n);
+                0
+            }
+            Err(e) => {
+                eprintln!("{}", e);
+                2
+            }
+        },
         Some("c18probe") => {
             xtv::checks::c18::probe();
             0
